@@ -7,6 +7,7 @@ import { Env, Unsupported, C, canon } from "../ref/normalize.mjs";
 
 const PLAIN_KEYS = ["a", "b", "c", "d", "id", "name", "value", "kind", "type", "tag", "x", "y", "items", "next"];
 const HOSTILE_KEYS = ["a-b", "constructor", "toString", "0", "", "has space", "hasOwnProperty", "valueOf", "length", "1e3", "é"];
+const HOSTILE_LITS = ['say "hi"', 'C:\\dir\\"my file"', '"a"\n"b"', "it's", "back`tick", "${x}", "a\\b", "line\nbreak", "\u2028", "é€😀", "'\"", "*/", "</script>", "\\", "tab\there"];
 const STR_LITS = ["a", "b", "c", "x", "y", "ok", "err", "A", "", "a b", "toString", "constructor", "0", "true", "null"];
 const NUM_LITS = [0, 1, 2, -1, 1.5, 42, 100, 1e21];
 const TYPED = ["Uint8Array", "Uint8ClampedArray", "Uint16Array", "Uint32Array", "Int8Array", "Int16Array", "Int32Array", "Float32Array", "Float64Array", "BigInt64Array", "BigUint64Array"];
@@ -131,6 +132,8 @@ export class TypeGen {
     return r.pick(PLAIN_KEYS);
   }
   strLit() {
+    // now and then a literal that needs escaping wherever it is printed (emitted JavaScript, describe(), schema)
+    if (this.f.hostileLits !== false && this.rng.chance(0.05)) return A.lit(this.rng.pick(HOSTILE_LITS));
     return A.lit(this.rng.pick(STR_LITS));
   }
   numLit() {
